@@ -72,6 +72,10 @@ class TreeTooLarge(Exception):
     pass
 
 
+class TreeTooDeep(Exception):
+    """A path of the choice tree is longer than the caller's bound on any legitimate execution."""
+
+
 class BranchingRNG:
     """One execution under a forced prefix of choice indices.
 
@@ -80,9 +84,10 @@ class BranchingRNG:
     checking) are served from a private side stream and never branch.
     """
 
-    def __init__(self, prefix=(), strata=4, side_seed=12345):
+    def __init__(self, prefix=(), strata=4, side_seed=12345, max_depth=None):
         self.prefix = list(prefix)
         self.strata = strata
+        self.max_depth = max_depth
         self.path = []
         self.prob = Fraction(1)
         self.depth_check = 0
@@ -94,6 +99,8 @@ class BranchingRNG:
     def _choose(self, probs):
         probs = [Fraction(p) for p in probs]
         k = len(self.path)
+        if self.max_depth is not None and k >= self.max_depth:
+            raise TreeTooDeep(k)
         if k < len(self.prefix):
             i = self.prefix[k]
         else:
@@ -197,7 +204,7 @@ class BranchingRNG:
         return None
 
 
-def walk_tree(execute, strata=4, max_leaves=20000):
+def walk_tree(execute, strata=4, max_leaves=20000, max_depth=None):
     """Enumerate every RNG outcome of ``execute()`` (called under a BranchingRNG).
 
     Yields (outcome, probability, rng) per leaf.  ``execute`` must be deterministic given
@@ -205,7 +212,7 @@ def walk_tree(execute, strata=4, max_leaves=20000):
     prefix = []
     leaves = 0
     while prefix is not None:
-        rng = BranchingRNG(prefix, strata=strata)
+        rng = BranchingRNG(prefix, strata=strata, max_depth=max_depth)
         with patched_random(rng):
             outcome = execute()
         leaves += 1
